@@ -6,6 +6,7 @@ import CkbVerif.Lemmas.IndexerHistory
 import CkbVerif.Lemmas.IndexerStep5
 import CkbVerif.Lemmas.IndexerRbS5
 import CkbVerif.Lemmas.IndexerRbPrune
+import CkbVerif.Lemmas.IndexerRbTip
 
 /-!
 # C18 — the indexer's answers equal filtering the chain's live cells and transactions
@@ -32,7 +33,13 @@ Proved here (all unbounded: any store, any block, any script):
   output of an earlier transaction of the block): outputs of the block that are not spent later in
   the block become live, cells spent by a non-cellbase input (live before, or created earlier in the
   same block) are dead, everything else is unchanged — i.e. the step of the direct replay of the chain.
-* `answers_eq_filter_partial` — by induction over ANY chain of blocks, each well-formed for the store
+* `live_set_eq_replay` — the store's OutPoint rows equal `replayLive blocks`, a pure fold over the block
+  list (no store), for ANY `ChainOK2` chain (same-block spends, automatic prune).
+* `rollback_append_tip` — the tip after `rollback (append keep interval s b)`, prune included, equals
+  the tip of `s` under the exact retention hypothesis `b.number ≤ tipNumber + keep` (= `keep_num ≥ 1`
+  for a chain growing by one); `keep0_tip_not_restored_witness` shows the hypothesis is needed (the
+  documented retention limit, not a defect).
+* `answers_eq_filter_partial` — (right-hand side = `replayLive blocks`) by induction over ANY chain of blocks, each well-formed for the store
   it is appended to (`ChainOK2`: distinct fresh tx ids, inputs of the same block only to EARLIER
   transactions, …; same-block spends included), with the automatic prune interleaved: the exact-mode
   live-cell scan by lock script returns exactly the rows of the live cells (OutPoint rows = replayed
@@ -54,12 +61,12 @@ Proved here (all unbounded: any store, any block, any script):
   and the same tip (stated for `appendCore`, i.e. up to the commit).
 * `rollback_append_pruned_partial` — the same for the FULL `append` (automatic prune between append
   and rollback, any `keep_num`): every ANSWER row (OutPoint, Cell*Script, Tx*Script) is restored.
-  PARTIAL: the tip / TxHash / Header rows after a rollback across a prune (retention) are not stated.
+  (The tip: `rollback_append_tip`; TxHash / Header rows of pruned blocks are of course not restored.)
 * `answers_eq_filter_instance`, `rollback_append_instance` — sanity instances on one concrete
   two-block chain WITH a same-block spend (kernel evaluation).
 
 NOT proved in general (tested by the correspondence harness against an independent replay oracle):
-the tip after a rollback across an intervening prune (retention `keep_num`); that `ChainOK2` / `WFRollback2` hold for every chain the
+that `ChainOK2` / `WFRollback2` hold for every chain the
 node delivers (they are the harness's generator invariants); prefix-mode answers
 (see `prefix_search_overmatch_witness`), ordering / limit / cursor of the RPC layer.
 -/
@@ -255,25 +262,40 @@ theorem replay_step_other (s : Store) (b : Block) (wf : WFAppend2 s b) (op : Out
     get (appendCore s b) (.outPoint op) = get s (.outPoint op) :=
   outPoint_other2 wf op hnc hns
 
-/-- **answers_eq_filter** (PARTIAL: live cells by lock script, exact mode; same-block spends ARE
-covered). After ANY chain of well-formed appends from the empty store (automatic prune included),
-a CellLockScript row is returned by the exact-mode scan for `q` iff it is the row of a live cell
-(an OutPoint row, i.e. a cell of the replayed live set) whose lock script is `q`, created at that
-block number / tx index. Full statement: see the header comment. -/
+/-- **the live-cell set is the direct replay of the chain**: after ANY well-formed chain of appends
+from the empty store (same-block spends and the automatic prune included) the store's OutPoint rows
+are exactly `replayLive blocks` — a pure fold over the block list that knows nothing of the store:
+outputs become live with (block number, tx index), out-points spent by a non-cellbase input die. -/
+theorem live_set_eq_replay (keep interval : Nat) (blocks : List Block)
+    (ok : ChainOK2 keep interval [] blocks) (op : OutPoint) :
+    get (blocks.foldl (append keep interval) []) (.outPoint op) = (replayLive blocks op).map Val.cell :=
+  outPoint_eq_replay keep interval blocks ok op
+
+/-- **answers_eq_filter** for live cells by LOCK script. After ANY chain of well-formed appends from
+the empty store (same-block spends and the automatic prune included), a CellLockScript row is
+returned by the exact-mode scan for `q` iff it is the row of a cell of the REPLAYED live set
+(`replayLive blocks`, no store involved) whose lock script is `q`, created at that block number / tx
+index. PARTIAL in scope only: exact search mode (prefix mode over-matches, see
+`prefix_search_overmatch_witness`), and membership of the scanned rows — the RPC layer's ordering,
+limit, cursor and cell filters on top of these rows are tested by correspondence. -/
 theorem answers_eq_filter_partial (keep interval : Nat) (blocks : List Block)
     (ok : ChainOK2 keep interval [] blocks) (q sc : Script) (bn txi io t : Nat) :
     ((Key.cellLock sc bn txi io, Val.tx t) ∈ scan (blocks.foldl (append keep interval) []) (cellPrefix true q) ∧
       (Key.cellLock sc bn txi io).bytes.length = (cellPrefix true q).length + 16) ↔
-    (sc = q ∧ ∃ c : Cell, get (blocks.foldl (append keep interval) []) (.outPoint ⟨t, io⟩) = some (.cell c) ∧
+    (sc = q ∧ ∃ c : Cell, replayLive blocks ⟨t, io⟩ = some c ∧
       c.out.lock = q ∧ c.bn = bn ∧ c.txIdx = txi) := by
   have hnd := nodup_chain keep interval blocks [] trivial
   have hinv := lockInv_chain2 keep interval blocks [] lockInv_empty ok
-  rw [exact_search_cells, mem_iff_get _ hnd, hinv sc bn txi io t]
+  have hrep := outPoint_eq_replay keep interval blocks ok ⟨t, io⟩
+  rw [exact_search_cells, mem_iff_get _ hnd, hinv sc bn txi io t, hrep]
   constructor
   · rintro ⟨⟨c, hc, hl, hb, ht⟩, rfl⟩
-    exact ⟨rfl, c, hc, hl, hb, ht⟩
+    refine ⟨rfl, c, ?_, hl, hb, ht⟩
+    cases h : replayLive blocks ⟨t, io⟩ with
+    | none => simp [h] at hc
+    | some c' => simp [h] at hc; rw [hc]
   · rintro ⟨rfl, c, hc, hl, hb, ht⟩
-    exact ⟨⟨c, hc, hl, hb, ht⟩, rfl⟩
+    exact ⟨⟨c, by simp [hc], hl, hb, ht⟩, rfl⟩
 
 /-- `ChainOK2` is satisfiable by a non-trivial chain: block 1 spends an output of block 0, creates
 two cells, spends one of them again in the SAME block (tx 4) and that one again (tx 5); block 2
@@ -287,27 +309,47 @@ example : ChainOK2 1 1 []
       ⟨2, 12, [⟨6, [⟨0, 4294967295⟩], [⟨5, ⟨1, [1]⟩, none, []⟩]⟩, ⟨7, [⟨3, 1⟩, ⟨5, 0⟩], []⟩]⟩ ] :=
   ⟨wfAppend2_of_B _ _ (by decide), wfAppend2_of_B _ _ (by decide), wfAppend2_of_B _ _ (by decide), trivial⟩
 
-/-- **answers_eq_filter for type scripts** (PARTIAL as above): the exact-mode live-cell scan by TYPE
-script returns exactly the rows of the live cells whose type script is the searched one. -/
+/-- **answers_eq_filter** for live cells by TYPE script (same scope as above). -/
 theorem answers_eq_filter_type_partial (keep interval : Nat) (blocks : List Block)
     (ok : ChainOK2 keep interval [] blocks) (q sc : Script) (bn txi io t : Nat) :
     ((Key.cellType sc bn txi io, Val.tx t) ∈ scan (blocks.foldl (append keep interval) []) (cellPrefix false q) ∧
       (Key.cellType sc bn txi io).bytes.length = (cellPrefix false q).length + 16) ↔
-    (sc = q ∧ ∃ c : Cell, get (blocks.foldl (append keep interval) []) (.outPoint ⟨t, io⟩) = some (.cell c) ∧
+    (sc = q ∧ ∃ c : Cell, replayLive blocks ⟨t, io⟩ = some c ∧
       c.out.type = some q ∧ c.bn = bn ∧ c.txIdx = txi) := by
   have hnd := nodup_chain keep interval blocks [] trivial
   have hinv := typeInv_chain2 keep interval blocks [] typeInv_empty ok
+  have hrep := outPoint_eq_replay keep interval blocks ok ⟨t, io⟩
   have h := exact_cellType q sc bn txi io
-  rw [mem_scan, mem_iff_get _ hnd, hinv sc bn txi io t]
+  rw [mem_scan, mem_iff_get _ hnd, hinv sc bn txi io t, hrep]
   simp only [cellPrefix, Bool.false_eq_true, if_false] at *
   constructor
   · rintro ⟨⟨⟨c, hc, hl, hb, ht⟩, hp⟩, hlen⟩
     have := h.mp ⟨hp, hlen⟩
     subst this
-    exact ⟨rfl, c, hc, hl, hb, ht⟩
+    refine ⟨rfl, c, ?_, hl, hb, ht⟩
+    cases h' : replayLive blocks ⟨t, io⟩ with
+    | none => simp [h'] at hc
+    | some c' => simp [h'] at hc; rw [hc]
   · rintro ⟨rfl, c, hc, hl, hb, ht⟩
     obtain ⟨hp, hlen⟩ := h.mpr rfl
-    exact ⟨⟨⟨c, hc, hl, hb, ht⟩, hp⟩, hlen⟩
+    exact ⟨⟨⟨c, by simp [hc], hl, hb, ht⟩, hp⟩, hlen⟩
+
+/-- the replay spec computes: after blocks 0 and 1 of the `ChainOK2` example, 5.0 is live and 3.0 (created and spent in block 1) is not -/
+example :
+    replayLive
+      [ ⟨0, 10, [⟨1, [⟨0, 4294967295⟩], [⟨1000, ⟨1, [1]⟩, none, []⟩]⟩]⟩,
+        ⟨1, 11, [⟨2, [⟨0, 4294967295⟩], []⟩,
+                 ⟨3, [⟨1, 0⟩], [⟨100, ⟨1, [1]⟩, some ⟨2, [5]⟩, [7]⟩, ⟨250, ⟨1, [1, 2]⟩, none, []⟩]⟩,
+                 ⟨4, [⟨3, 0⟩], [⟨50, ⟨1, [1]⟩, none, []⟩]⟩,
+                 ⟨5, [⟨4, 0⟩], [⟨1, ⟨2, [5]⟩, some ⟨1, [1]⟩, [9]⟩]⟩]⟩ ] ⟨5, 0⟩
+      = some ⟨1, 3, ⟨1, ⟨2, [5]⟩, some ⟨1, [1]⟩, [9]⟩⟩ ∧
+    replayLive
+      [ ⟨0, 10, [⟨1, [⟨0, 4294967295⟩], [⟨1000, ⟨1, [1]⟩, none, []⟩]⟩]⟩,
+        ⟨1, 11, [⟨2, [⟨0, 4294967295⟩], []⟩,
+                 ⟨3, [⟨1, 0⟩], [⟨100, ⟨1, [1]⟩, some ⟨2, [5]⟩, [7]⟩, ⟨250, ⟨1, [1, 2]⟩, none, []⟩]⟩,
+                 ⟨4, [⟨3, 0⟩], [⟨50, ⟨1, [1]⟩, none, []⟩]⟩,
+                 ⟨5, [⟨4, 0⟩], [⟨1, ⟨2, [5]⟩, some ⟨1, [1]⟩, [9]⟩]⟩]⟩ ] ⟨3, 0⟩ = none := by
+  decide
 
 /-! ## the transaction history written by one append -/
 
@@ -394,6 +436,42 @@ example :
   have wf0 : WFAppend2 [] b0 := wfAppend2_of_B _ _ (by decide)
   exact ⟨wfRollback2_of _ _ (by decide) (by decide) (lockInv_append2 wf0 lockInv_empty)
     (typeInv_append2 wf0 typeInv_empty), by unfold HdrDisjoint; decide⟩
+
+/-- **rollback_append, tip across the automatic prune**: `tip (rollback (append keep interval s b))
+= tip s` whenever the previous tip's Header row is inside the retention: `b.number ≤ tipNumber + keep`
+— for a chain that grows by one block at a time this is exactly `keep_num ≥ 1`. Together with
+`rollback_append_pruned_partial` (all answer rows) this is "rolling back the last appended block
+restores every answer, within the configured retention". -/
+theorem rollback_append_tip (s : Store) (b : Block) (wf : WFRollback2 s b) (hd : HdrDisjoint s b)
+    (hnd : NodupKeys s) (keep interval : Nat)
+    (hret : ∀ tn th, tip s = some (tn, th) → b.number ≤ tn + keep) :
+    tip (rollback (append keep interval s b)) = tip s :=
+  rollback_append_full_tip wf hd hnd keep interval hret
+
+example :
+    let b0 : Block := ⟨0, 10, [⟨1, [⟨0, 4294967295⟩], [⟨1000, ⟨1, [1]⟩, none, []⟩]⟩]⟩
+    let b1 : Block := ⟨1, 11, [⟨2, [⟨0, 4294967295⟩], []⟩, ⟨3, [⟨1, 0⟩], [⟨100, ⟨1, [1]⟩, none, []⟩]⟩,
+      ⟨4, [⟨3, 0⟩], []⟩]⟩
+    (∀ tn th, tip (appendCore [] b0) = some (tn, th) → b1.number ≤ tn + 1) ∧
+      tip (rollback (append 1 1 (appendCore [] b0) b1)) = some (0, 10) := by
+  intro b0 b1
+  refine ⟨?_, by decide⟩
+  intro tn th h
+  have : tip (appendCore [] b0) = some (0, 10) := by decide
+  rw [this] at h
+  cases h
+  decide
+
+/-- the retention hypothesis is needed — and this is the DOCUMENTED limit, not a defect:
+with `keep_num = 0` the prune that runs inside `append` of block 2 deletes the Header rows of
+blocks 0 and 1, so after rolling block 2 back no Header row is left and the tip is not (1, 11).
+(`keep_num: number of blocks to keep for rollback and forking`; the node uses 100.) -/
+theorem keep0_tip_not_restored_witness :
+    ∃ (s : Store) (b : Block), tip s = some (1, 11) ∧ tip (rollback (append 0 1 s b)) = none :=
+  ⟨append 0 1 (append 0 1 [] ⟨0, 10, [⟨1, [⟨0, 4294967295⟩], [⟨1000, ⟨1, [1]⟩, none, []⟩]⟩,
+      ⟨2, [⟨1, 0⟩], [⟨1000, ⟨1, [1]⟩, none, []⟩]⟩]⟩)
+      ⟨1, 11, [⟨3, [⟨0, 4294967295⟩], [⟨5, ⟨1, [1]⟩, none, []⟩]⟩]⟩,
+    ⟨2, 12, [⟨4, [⟨0, 4294967295⟩], [⟨5, ⟨1, [1]⟩, none, []⟩]⟩]⟩, by decide, by decide⟩
 
 /-! ## Lean witnesses of the other two known deviations of the code (known_findings.txt) -/
 
